@@ -434,6 +434,9 @@ func (p *parser) parseDotMember(left ast.Expression) ast.Expression {
 		return &ast.BadExpression{From: period, To: p.idx}
 	}
 
+	// A property name ends an expression whatever its token kind (a.new, a.if):
+	// a line terminator after it must be visible to semicolon insertion.
+	p.insertSemicolon = true
 	p.next()
 
 	return &ast.DotExpression{
